@@ -257,6 +257,8 @@ def run(ctx):
         progs.append([l for l in gen.random_flow(rng).split("\n") if l.strip()])
     for _ in range(40 * k):
         progs.append([l for l in gen.stack_fuzz(rng).split("\n") if l.strip()])
+    for _ in range(60 * k):          # boundary constants (i32::MIN/MAX ...) written in every notation
+        progs.append([l for l in gen.fold_prog(rng).split("\n") if l.strip()])
     for _ in range(80 * k):          # interrupt handlers installed and CSRs accessed through every CSR (pseudo-)instruction
         h = [l for l in gen.handler_prog(rng).split("\n") if l.strip()]
         extra = rng.choice([["csrw t1, uscratch"], ["csrr t2, ustatus", "add a0, a0, t2"], ["csrwi ustatus, 1"], ["csrsi uie, 16"], ["csrci ustatus, 1"],
